@@ -407,6 +407,18 @@ func (w *World) Do(act string) string {
 		delete(w.parkAt, f[1])
 		w.mu.Unlock()
 		w.D.ReleasePoint(f[1])
+	case "invf": // invf!op!idx!prog!len!ctx : as inv, but Marshal of the request fails
+		idx, l, cid := atoi(f[2]), atoi(f[4]), atoi(f[5])
+		ctx := w.ctx(cid)
+		enc := &sm.Enc{MFail: true}
+		w.issue(f[1], func() string {
+			var out []byte
+			err := w.Conn.Invoke(ctx, rpcName(idx, f[3]), enc, Payload(idx, 1, 0, l), &out)
+			if err != nil {
+				return errName(err)
+			}
+			return "ok:" + Describe(out)
+		})
 	case "mrel": // release the parked Marshal of an invp
 		if ch := w.mparks[f[1]]; ch != nil {
 			select {
